@@ -681,8 +681,20 @@ def crd_gen(rng, i, thorough):
         atoms.append({"resnum": rng.choice([1, 9, 10, 99, 100, 999, 1000, 9999, rng.randint(1, 9999)]), "resname": rng.choice(CRD_NAMES),
                       "attype": rng.choice(CRD_TYPES), "xyz": [rand_fixed(rng, 5, 3, 2) for _ in range(3)], "segid": rng.choice(CRD_SEG),
                       "resid": rng.choice([1, 46, 999, 9999, rng.randint(0, 9999)]), "mass": (False, F.rand_mag(rng, 5, 3), -5)})
+    touching = bool(atoms) and i % 10 == 7
+    if touching:
+        # a coordinate that fills its ten columns: valid card format, no blank in front of it
+        atoms[rng.randrange(len(atoms))]["xyz"][rng.randint(0, 2)] = rng.choice([(True, rng.randint(10_000_000, 99_999_999), -5),
+                                                                            (False, rng.randint(100_000_000, 999_999_999), -5)])
     m = {"title": tl, "atoms": atoms}
-    return m, f"natom={n if n in CRD_SIZES or n > 900 else 'rand'}/title={len(tl)}"
+    return m, f"natom={n if n in CRD_SIZES or n > 900 else 'rand'}/title={len(tl)}" + ("/touching" if touching else "")
+
+
+def crd_cause(m):
+    """the region where the reader provably deviates from the card format (Props: crd_touching_fields_violated)"""
+    if any(len(_dec_text(x)) >= 10 for a in m["atoms"] for x in [*a["xyz"], a["mass"]]):
+        return "touching-fields"
+    return None
 
 
 def crd_enc(m):
@@ -979,7 +991,7 @@ FORMATS = {
     "glog": dict(fields=["one_ints.olp", "one_ints.kin_ao", "one_ints.na_ao", "two_ints.er_ao"], gen=glog_gen, enc=glog_enc, write=glog_write, expect=glog_expect, impl=lambda raw, ref, m: glog_impl_line(raw),
                  fmt="gaussianlog", n=(36, 300), load=lambda m: "glog"),
     "crd": dict(fields=["title", "atffparams/extra", "atcoords", "atmasses"], gen=crd_gen, enc=crd_enc, write=crd_write,
-                expect=crd_expect, impl=lambda raw, ref, m: crd_impl(raw, ref), fmt="charmm", n=(30, 300), load=lambda m: "crd"),
+                expect=crd_expect, impl=lambda raw, ref, m: crd_impl(raw, ref), cause=crd_cause, fmt="charmm", n=(30, 300), load=lambda m: "crd"),
     "extxyz": dict(fields=["title", "cellvecs", "energy", "charge", "atnums", "atcoords", "atmasses", "atgradient", "extra"],
                    gen=extxyz_gen, enc=None, write=extxyz_write, expect=extxyz_expect, impl=lambda raw, ref, m: extxyz_impl(raw, ref),
                    fmt="extxyz", n=(40, 400), load=lambda m: "extxyz"),
@@ -1028,7 +1040,8 @@ def run_format(ctx, key, n, do_corr=True):
         ok = line == expect
         ctx.count(f"spec-load:{key}", py.hex()[:6000], cls + ("" if ok else "/DIFF"), sample={"format": key, "class": cls})
         if not ok:
-            sig = f"{key}:spec:{_diff_kind(line, expect, fm.get('fields'))}"
+            cause = fm["cause"](m) if "cause" in fm else None
+            sig = f"{key}:spec:{cause or _diff_kind(line, expect, fm.get('fields'))}"
             ctx.fail(sig, f"{fm['fmt']}: a file following the published layout is not loaded as written ({sig}; class {cls})",
                      {"kind": "readers", "format": key, "sub": fm["load"](m), "hex": py.hex(), "expect": expect})
         lreq.append(f"fmtr load {fm['load'](m)} {raw.hex()}")
